@@ -68,6 +68,38 @@ func lowerBoundExprs(a ssa.Value, gs []Guard) []ssa.Value {
 	return out
 }
 
+// boundIsStrict: the fact relating a and e among the guards is only available in its strict form (a > e for a lower
+// bound, a < e for an upper bound) — i.e. the rejecting test was written with <= / >=.
+func boundIsStrict(a, e ssa.Value, gs []Guard, lower bool) bool {
+	key, ek := termKey(a, 0), termKey(e, 0)
+	strict, nonStrict := false, false
+	for _, g := range gs {
+		x, y, op, ok := relOf(g)
+		if !ok {
+			continue
+		}
+		if termKey(x, 0) == key && termKey(y, 0) == ek {
+			if lower {
+				strict = strict || op == token.GTR
+				nonStrict = nonStrict || op == token.GEQ
+			} else {
+				strict = strict || op == token.LSS
+				nonStrict = nonStrict || op == token.LEQ
+			}
+		}
+		if termKey(y, 0) == key && termKey(x, 0) == ek {
+			if lower {
+				strict = strict || op == token.LSS
+				nonStrict = nonStrict || op == token.LEQ
+			} else {
+				strict = strict || op == token.GTR
+				nonStrict = nonStrict || op == token.GEQ
+			}
+		}
+	}
+	return strict && !nonStrict
+}
+
 func constBig(v ssa.Value) *big.Int {
 	c, ok := v.(*ssa.Const)
 	if !ok {
@@ -207,6 +239,9 @@ func (a *ivFn) template(x *ssa.BinOp, b *ssa.BasicBlock, gs []Guard) string {
 			for _, e := range upperBoundExprs(mv, gs) {
 				if s, ok := e.(*ssa.BinOp); ok && s.Op == token.SUB && termKey(s.Y, 0) == termKey(dv, 0) {
 					if c := constBig(s.X); c != nil && inRangeHigh(c) {
+						if c.Cmp(k.hi) == 0 && boundIsStrict(mv, e, gs, false) {
+							return "T3: a+b under a < C-b [over-strict: the guard also rejects the operands whose sum is exactly the type's maximum]"
+						}
 						return "T3: a+b under a <= C-b"
 					}
 				}
@@ -224,6 +259,9 @@ func (a *ivFn) template(x *ssa.BinOp, b *ssa.BasicBlock, gs []Guard) string {
 			if s, ok := e.(*ssa.BinOp); ok && s.Op == token.ADD {
 				for _, p2 := range [][2]ssa.Value{{s.X, s.Y}, {s.Y, s.X}} {
 					if c := constBig(p2[0]); c != nil && inRangeLow(c) && termKey(p2[1], 0) == termKey(x.Y, 0) {
+						if c.Cmp(k.lo) == 0 && boundIsStrict(x.X, e, gs, true) {
+							return "T4: a-b under a > C+b [over-strict: the guard also rejects the operands whose difference is exactly the type's minimum]"
+						}
 						return "T4: a-b under a >= C+b"
 					}
 				}
